@@ -97,13 +97,17 @@ def run_script(parser, script):
         if op[0] == "parse":
             stats["parse"] += 1
             try:
-                parser.parse(op[1])
+                # (both call forms of the documented signature, by turns)
+                if stats["parse"] % 3 == 0:
+                    parser.parse(input_text=op[1])
+                else:
+                    parser.parse(op[1])
             except Exception:
                 stats["failures"] += 1
         elif op[0] == "tokenize":
             stats["tokenize"] += 1
             try:
-                handed.append(parser.tokenize(op[1]))
+                handed.append(parser.tokenize(input_text=op[1]) if stats["tokenize"] % 3 == 0 else parser.tokenize(op[1]))
             except Exception:
                 stats["failures"] += 1
         elif op[0] == "clear_cache":
